@@ -452,8 +452,10 @@ fn classify(
                     // development aid: log every failure and keep going (never used by checks)
                     use std::fs::OpenOptions;
                     let rec = json!({"sig": o.sig, "msg": o.msg.chars().take(1500).collect::<String>(), "case": case});
+                    static TRIAGE_LOCK: Mutex<()> = Mutex::new(());
+                    let _g = TRIAGE_LOCK.lock();
                     if let Ok(mut f) = OpenOptions::new().create(true).append(true).open(path) {
-                        let _ = writeln!(f, "{}", rec);
+                        let _ = f.write_all(format!("{}\n", rec).as_bytes());
                     }
                     return None;
                 }
@@ -557,13 +559,19 @@ pub fn run_check(prop: Arc<dyn Property>, tier: Tier) -> i32 {
 
     // ---- replay tier -------------------------------------------------------------------------
     let replay_dir = root.join("replay").join(id);
-    let mut replay_files: Vec<PathBuf> = std::fs::read_dir(&replay_dir)
-        .map(|rd| {
-            rd.filter_map(|e| e.ok().map(|e| e.path()))
-                .filter(|p| p.extension().map(|e| e == "json").unwrap_or(false))
-                .collect()
-        })
-        .unwrap_or_default();
+    fn json_files(dir: &Path, out: &mut Vec<PathBuf>) {
+        if let Ok(rd) = std::fs::read_dir(dir) {
+            for p in rd.filter_map(|e| e.ok().map(|e| e.path())) {
+                if p.is_dir() {
+                    json_files(&p, out);
+                } else if p.extension().map(|e| e == "json").unwrap_or(false) {
+                    out.push(p);
+                }
+            }
+        }
+    }
+    let mut replay_files: Vec<PathBuf> = vec![];
+    json_files(&replay_dir, &mut replay_files);
     replay_files.sort();
     let mut replayed = 0usize;
     {
@@ -850,14 +858,14 @@ pub fn run_check(prop: Arc<dyn Property>, tier: Tier) -> i32 {
         serde_json::to_string_pretty(&evidence).unwrap() + "\n",
     );
     eprintln!(
-        "[{id} {}] evaluations={} judged={} nontrivial={} skipped={} inconclusive={} known={:?} violations={} wall={:.1}s",
+        "[{id} {}] evaluations={} judged={} nontrivial={} skipped={} inconclusive={} known_findings_seen={} violations={} wall={:.1}s",
         tier.name(),
         total.evaluations,
         total.judged,
         nontrivial,
         total.skipped,
         total.inconclusive,
-        total.known_seen,
+        total.known_seen.len(),
         violations.len(),
         wall
     );
